@@ -344,6 +344,8 @@ def run(pid, tier, seed, oracle_names, title, feats=None, check_c07=False, extra
     chk.proofs()
     if pid == "C03":
         chk.proofs("Order")     # order and direct adjacency of a unit's stops are kept by order-respecting moves (and by the generators' moves)
+    if pid == "C19":
+        chk.proofs("SolUser")   # third level: rules with a per-solution exact check as a guard around the engine (never violated, rejection restores, genuine, conservative)
     if pid in ("C03", "C05", "C07", "C08"):
         chk.proofs("Units")     # nested units: conservative extension, defect witnesses N1/N2/N4/N7, units-move rollback
         chk.proofs("FixedInv")  # inputs with initial / fixed stops (mixed flags included), no groups: fixed units never leave their vehicle, never split; bookkeeping consistent on every history
@@ -370,6 +372,14 @@ def run(pid, tier, seed, oracle_names, title, feats=None, check_c07=False, extra
         for k, c in enumerate(co):
             c["id"] = "co%d" % k
         cases += co
+    if pid == "C19":
+        # the third level: user rules with a per-SOLUTION exact check (Model/SolUser.v: a guard around the engine's operations);
+        # whole-vehicle un-plans included; no groups, no initial stops
+        us = E.make_cases(seed * 1009 + 1920, nh, size=size, nops=nops, mode=mode,
+                          feats=dict(feats or {}, user_sol=True, groups=False, initial=False))
+        for c in us:
+            c["id"] = "us" + c["id"]
+        cases += us
     if pid == "C19":
         # the caller may declare that travel durations satisfy the triangle inequality (API only; the latest-start / latest-end
         # exact checks are then switched off and the estimates trusted): metric models without duration groups / multipliers, where
